@@ -18,7 +18,7 @@ PRE = ("From Coq Require Import List NArith ZArith.\nFrom Echo Require Import Ba
 
 CAP = 256 << 20          # child allocation cap (bytes above the baseline at call time)
 STACK = 8 << 20          # child worker stack
-ORACLE_C, ORACLE_C0 = 256, 64 << 10
+ORACLE_C, ORACLE_C0 = 512, 64 << 10   # serde_value's BTreeMap node costs ~720 B per 3-byte CBOR map: ~300 B/byte is the honest DTO constant
 TIMEOUT_MS = 30000     # CPU budget per input (a healthy decoder needs < 2 s CPU for 1 MiB in the debug profile, unloaded)
 MODEL_MAX = 600          # inputs up to this many bytes are also run through the Coq model
 ERR_SLACK = 512          # error-message strings are not charged by the model
@@ -440,6 +440,10 @@ def big_specs(rng, dec, seeds, cborish, tier, ops=None):
         if len(s) > 4:
             out.append(("seed-prefix+big-tail", f"{hexs(s[:len(s) // 2])}+ff*{1 << 20}"))
     if cborish:
+        # wide and flat: many tiny containers (allocation per container dominates)
+        for n in (1000, 100000):
+            out.append(("wide", head(4, n).hex() + f"+a10000*{n}"))
+            out.append(("wide", head(4, n).hex() + f"+8100*{n}"))
         for sp in deep_specs(dec in ("abi-cbor", "edict", "scene-delta") or tier == "thorough"):
             out.append(("deep", sp))
         for m in ("5b", "7b", "9b", "bb", "5a", "7a", "9a", "ba"):
@@ -687,7 +691,7 @@ MANIFEST_WHEN_FIXED = {
              "serde DTOs, EINT envelopes, codec.rs Reader, ELOG, Edict, retained ingress, 16 WAL payload records, WAL segment recovery, "
              "WSC file/validator/store envelope, scene codec, materialization frames, warp-wasm dispatch/observe/control) is exercised "
              "with random, mutated-valid, lying-length and 1 MiB deep-nesting inputs, each in an isolated child process with a counting "
-             "allocator, bounded stack and CPU budget; the oracle requires value|typed error and peak <= 256*len + 64 KiB."),
+             "allocator, bounded stack and CPU budget; the oracle requires value|typed error and peak <= 512*len + 64 KiB."),
     "note": ("Proof level holds for the modelled code only (decode_value, wsc/read.rs range checks). Stack exhaustion and allocator abort "
              "are runtime effects: the theorems bound the model's depth/allocation meters, the tie checks exit status and measured peak of "
              "the real process (debug profile, 8 MiB stack, 256 MiB cap, 30 s CPU per input). All other decoders, including everything "
